@@ -338,7 +338,7 @@ func Run(cfg Config) (int, error) {
 			return false
 		}
 		if out == "accept" && len(sigs) > 0 { // tampering with any signed field must invalidate
-			for f := 0; f < 12; f++ {
+			for f := 0; f < 20; f++ {
 				d2 := rg.d
 				switch f {
 				case 0:
@@ -388,6 +388,17 @@ func Run(cfg Config) (int, error) {
 						continue
 					}
 					d2.ids = append([][]byte{}, d2.ids[:len(d2.ids)-1]...)
+				case 12, 13: // a signed number changed in its upper half only
+					d2.instance += 1 << (32 * uint(f-11))
+					if f == 13 {
+						d2.instance = rg.d.instance + 1<<63
+					}
+				case 14, 15:
+					d2.eon = rg.d.eon + 1<<(31+uint(f-14))
+				case 16, 17:
+					d2.slot = rg.d.slot + 1<<(32+31*uint(f-16))
+				case 18, 19:
+					d2.txPointer = rg.d.txPointer + 1<<(32+31*uint(f-18))
 				default: // an identity repeated in place (the first / the last)
 					if len(d2.ids) == 0 {
 						continue
@@ -400,7 +411,7 @@ func Run(cfg Config) (int, error) {
 					ids = append(ids, append([]byte{}, d2.ids[k]...))
 					d2.ids = append(ids, d2.ids[k+1:]...)
 				}
-				if rg.flavour != "gnosis" && (f == 2 || f == 3) {
+				if rg.flavour != "gnosis" && (f == 2 || f == 3 || f >= 16) {
 					continue
 				}
 				ks2 := rg.keyperSet(threshold)
